@@ -16,6 +16,17 @@ impl NamingActor {
     }
 }
 
+pub open spec fn skey(k: InstanceKey) -> ServiceKey { ServiceKey { namespace_id: k.namespace_id, group_name: k.group_name, service_name: k.service_name } }
+pub open spec fn shkey(k: InstanceKey) -> InstanceShortKey { InstanceShortKey { ip: k.ip, port: k.port } }
+
+impl NamingActor {
+    /// the registered instance behind a reverse-map key, if any
+    pub open spec fn has(&self, k: InstanceKey) -> bool {
+        self.service_map@.contains_key(skey(k)) && self.service_map@[skey(k)].instances@.contains_key(shkey(k))
+    }
+    pub open spec fn at(&self, k: InstanceKey) -> Arc<Instance> { self.service_map@[skey(k)].instances@[shkey(k)] }
+}
+
 pub uninterp spec fn spec_hash<T>(v: T) -> u64;
 pub uninterp spec fn range_owns(r: ProcessRange, h: usize) -> bool;
 
